@@ -222,6 +222,16 @@ func (s *zzSim) finish() {
 	bob := s.nodes[zzB]
 	bob.kv.Disarm()
 	s.crashArmed = false
+	s.midCutArmed = false
+	s.mu.Lock()
+	mc := s.midCutConn
+	s.midCutConn = -1
+	s.mu.Unlock()
+	if mc >= 0 {
+		r.Count("fault_cut_inside_write")
+		s.midCuts++
+		s.faultCut(mc)
+	}
 	if bob.kv.Fenced() {
 		s.rebootBob("crash")
 	}
@@ -347,6 +357,35 @@ func (s *zzSim) finalChecks() {
 		s.mu.Lock()
 		done, success, resErr := p.done, p.success, p.resErr
 		s.mu.Unlock()
+		if !done && s.midCuts > 0 {
+			// Structural signature of a recorded lnd finding: the link's
+			// quit channel closed (peer disconnect) inside
+			// Switch.ForwardPackets between CommitCircuits and the
+			// hand-over to the forwarder (routeAsync returns
+			// ErrLinkShuttingDown). The circuit is durable and half open,
+			// the add is in no mailbox; when the re-created link replays
+			// the add, CommitCircuits answers "drop" (circuit exists, not
+			// loaded from disk), so nobody forwards or fails it until the
+			// node restarts.
+			bsw := s.nodes[zzB].sw
+			if bsw != nil && bsw.circuits.NumPending() > bsw.circuits.NumOpen() {
+				known := false
+				func() {
+					defer func() {
+						if p := recover(); p != nil {
+							panic(p)
+						}
+					}()
+					r.FailOrKnown("payment-stuck", "cut-inside-write/committed-circuit-add-dropped",
+						"%s has no result at quiescence after a connection cut that landed inside one of Bob's writes; Bob holds %d half-open circuit(s) whose add is in no mailbox (ForwardPackets gave up after CommitCircuits because the link was shutting down; the replayed add is dropped as a duplicate); lnd log tail:\n%s",
+						p, bsw.circuits.NumPending()-bsw.circuits.NumOpen(), zzLogTail())
+					known = true
+				}()
+				if known {
+					return // the rest of the end state is a consequence
+				}
+			}
+		}
 		if !done {
 			r.Fail("payment-stuck", "%s has no result although the network is quiescent, all links are up and hold invoices were resolved (dangling HTLC or circuit); lnd log tail:\n%s", p, zzLogTail())
 		}
